@@ -39,6 +39,21 @@ func (li *loopInfo) rangeIndexAlloc() *ssa.Alloc {
 	return nil
 }
 
+// mapRange returns the range instruction of a "for ... range m" loop over a
+// map (its Next is in the loop header), nil for other loops.
+func (li *loopInfo) mapRange() *ssa.Range {
+	for _, in := range li.header.Instrs {
+		if n, ok := in.(*ssa.Next); ok && !n.IsString {
+			if r, ok := n.Iter.(*ssa.Range); ok {
+				if _, isMap := r.X.Type().Underlying().(*types.Map); isMap {
+					return r
+				}
+			}
+		}
+	}
+	return nil
+}
+
 // findLoops discovers natural loops and binds them to source ordinals.
 func (fr *Frame) findLoops(order []*ssa.BasicBlock) {
 	fr.loops = map[*ssa.BasicBlock]*loopInfo{}
@@ -220,9 +235,11 @@ func (fr *Frame) loopWrites(li *loopInfo) (cells map[ssa.Value]bool, heaps map[s
 				}
 			case *ssa.Range:
 				cells[rangeKey{in}] = true
+				cells[rangeCountKey{rangeKey{in}}] = true
 			case *ssa.Next:
 				if r, ok := in.Iter.(*ssa.Range); ok {
 					cells[rangeKey{r}] = true
+					cells[rangeCountKey{rangeKey{r}}] = true
 				}
 			case *ssa.Defer:
 				cells[deferKey{in}] = true
@@ -356,6 +373,15 @@ func (vc *VC) zeroInitHeaps(elem types.Type) []string {
 	return []string{ptrHeapName(elem)}
 }
 
+// ownWatermark is the watermark below which objects were not allocated by
+// the function of this frame: its entry watermark.
+func (fr *Frame) ownWatermark(pre *State) Term {
+	if fr.entry != nil && fr.entry.wm.S != "" {
+		return fr.entry.wm
+	}
+	return pre.wm
+}
+
 // enterLoop cuts the loop at its header: invariant on entry, havoc of the
 // loop's write set, invariant assumed.
 func (fr *Frame) enterLoop(li *loopInfo, pre *State, pc Term) *State {
@@ -367,14 +393,14 @@ func (fr *Frame) enterLoop(li *loopInfo, pre *State, pc Term) *State {
 	if li.spec != nil {
 		env := fr.specEnv(pre, pc)
 		env.pre = li.pre
-		fr.curRangeIdx = li.rangeIndexAlloc()
+		fr.curRangeIdx, fr.curMapRange = li.rangeIndexAlloc(), li.mapRange()
 		for _, inv := range li.spec.Invariants {
 			if strings.Contains(inv.Src, "prev(") {
 				continue // transition invariant: checked at back edges only
 			}
 			vc.obligeClause("inv-entry", inv.Label, site+":"+labelOr(inv.Label, "inv"), pc, env, inv)
 		}
-		fr.curRangeIdx = nil
+		fr.curRangeIdx, fr.curMapRange = nil, nil
 	}
 	cells, heaps, top, allocs := fr.loopWrites(li)
 	st := pre.clone()
@@ -423,7 +449,7 @@ func (fr *Frame) enterLoop(li *loopInfo, pre *State, pc Term) *State {
 		sort.Strings(hn)
 		for _, h := range hn {
 			if vc.specs.isPrivateHeap(h) || vc.specs.isImmutableHeap(h) {
-				vc.havocHeapKeepOld(st, pre, h, pc)
+				vc.havocHeapKeepOldBelow(st, pre, h, pc, fr.ownWatermark(pre))
 			}
 		}
 	} else {
@@ -457,7 +483,7 @@ func (fr *Frame) enterLoop(li *loopInfo, pre *State, pc Term) *State {
 			}
 		} else {
 			for _, h := range hn {
-				vc.havocHeapKeepOld(st, pre, h, pc)
+				vc.havocHeapKeepOldBelow(st, pre, h, pc, fr.ownWatermark(pre))
 			}
 		}
 	}
@@ -465,14 +491,14 @@ func (fr *Frame) enterLoop(li *loopInfo, pre *State, pc Term) *State {
 	if li.spec != nil {
 		env := fr.specEnv(st, pc)
 		env.pre = li.pre
-		fr.curRangeIdx = li.rangeIndexAlloc()
+		fr.curRangeIdx, fr.curMapRange = li.rangeIndexAlloc(), li.mapRange()
 		for _, inv := range li.spec.Invariants {
 			if strings.Contains(inv.Src, "prev(") {
 				continue
 			}
 			vc.assumeClause(pc, env, inv)
 		}
-		fr.curRangeIdx = nil
+		fr.curRangeIdx, fr.curMapRange = nil, nil
 	}
 	vc.cover(site+":body", pc)
 	return st
@@ -489,11 +515,11 @@ func (fr *Frame) backEdge(li *loopInfo, st *State, guard Term) {
 	env := fr.specEnv(st, guard)
 	env.pre = li.pre
 	env.prev = li.hdr
-	fr.curRangeIdx = li.rangeIndexAlloc()
+	fr.curRangeIdx, fr.curMapRange = li.rangeIndexAlloc(), li.mapRange()
 	for _, inv := range li.spec.Invariants {
 		vc.obligeClause("inv-step", inv.Label, site+":"+labelOr(inv.Label, "inv"), guard, env, inv)
 	}
-	fr.curRangeIdx = nil
+	fr.curRangeIdx, fr.curMapRange = nil, nil
 	if li.spec.HasMod && !li.modTop {
 		for _, h := range li.modHeaps {
 			if vc.heapInfo[h] == nil {
@@ -538,7 +564,7 @@ type region struct {
 	lo, hi Term // absolute element index range when !whole and isElem
 	isElem   bool
 	global   bool
-	ghostAll bool // the whole ghost map
+	ghostAll bool // the whole ghost map, or a field of every object of a type ("T.f")
 	sort     Sort // sort of the heap, when the region's type is known
 }
 
@@ -556,6 +582,27 @@ func (vc *VC) evalRegions(env *Env, locs []Expr) ([]region, error) {
 							out = append(out, region{heap: globalName(obj.Pkg().Path(), obj.Name()), global: true})
 							continue
 						}
+					}
+				}
+			}
+			if id, ok := x.X.(*EIdent); ok && env.pkg != nil && !env.isVariable(id.Name) {
+				// "T.f": field f of every object of the struct type T
+				if tn, ok := env.pkg.Scope().Lookup(id.Name).(*types.TypeName); ok {
+					if st, isStruct := tn.Type().Underlying().(*types.Struct); isStruct {
+						found := false
+						for i := 0; i < st.NumFields(); i++ {
+							if st.Field(i).Name() == x.Name {
+								found = true
+								hn := fieldHeapName(tn.Type(), x.Name)
+								vc.heap(env.st, hn, arraySort(SInt, vc.sortOf(st.Field(i).Type())))
+								vc.noteHeapType(hn, st.Field(i).Type(), "field")
+								out = append(out, region{heap: hn, whole: true, ghostAll: true})
+							}
+						}
+						if !found {
+							return nil, fmt.Errorf("modifies %s: type %s has no field %s", exprString(l), id.Name, x.Name)
+						}
+						continue
 					}
 				}
 			}
